@@ -25,13 +25,15 @@ class LoopSpec:
     by the invariant.
     """
 
-    def __init__(self, inv, fresh=None, label=None, unroll=False, shapes=None, hints=None, modifies=(), variant=None):
+    def __init__(self, inv, fresh=None, label=None, unroll=False, shapes=None, hints=None, modifies=(), variant=None, reads_env=False, covers=()):
         # variant(view) -> ("int", t)            : t is an integer term, >= 0 whenever the body is entered, and every path back to
         #                                           the loop head decreases it by at least 1            (termination: well-founded)
         #                  ("halving", g, tol)   : g is a real term with g >= tol > 0 whenever the loop continues and every path
         #                                           back to the head at least halves it                  (termination: Lean
         #                                           lemma halving_terminates in lemmas/Term.lean)
         self.variant = variant
+        self.reads_env = reads_env    # the invariant reads locals through state.env (not tracked by the annotation-coverage check)
+        self.covers = tuple(covers)   # further locals the invariant accounts for
         self.modifies = tuple(modifies)   # attribute paths written by callees inside the loop (checked by the frame check)
         self.hints = hints    # hints(view) -> [(label, premise, conclusion)]: prove premise, then assume conclusion
         self.inv = inv
@@ -47,8 +49,10 @@ class View:
         self.state = state
         self.k = k
         self.pre = pre  # View of the state at loop entry (for frame conditions)
+        self.read = set()   # local names the annotation looked at (annotation-coverage check)
 
     def __getitem__(self, name):
+        self.read.add(name)
         v = self.state.env[name]
         if isinstance(v, Ref) and v.kind == "arr":
             return self.state.arr(v)
@@ -76,6 +80,7 @@ class Interp:
         self.loopspecs = {}           # (module, qualname) -> {ordinal: LoopSpec}
         self.cur = []                 # stack of (module, qualname)
         self.terminating = set()      # ((module, qualname), loop ordinal, kind) of while loops with a checked variant
+        self.annotation_gaps = {}     # ((module, qualname), loop line) -> loop-carried locals the invariant never reads
         self.solver_timeout = 10000
         self.prune = True
         self.check_div = False
@@ -690,6 +695,49 @@ class Interp:
                 c[key] = f
         return c[key]
 
+    @staticmethod
+    def loop_carried(loop, fdef):
+        """local names assigned in the loop body that carry a value from one pass to the next or out of the loop: read in the loop
+        test, read in the body at a position before their first assignment there, or read after the loop."""
+        stores, loads = {}, {}
+        for n in ast.walk(ast.Module(body=list(loop.body), type_ignores=[])):
+            if isinstance(n, ast.Name):
+                pos = (n.lineno, n.col_offset)
+                d = stores if isinstance(n.ctx, ast.Store) else loads
+                if n.id not in d or pos < d[n.id]:
+                    d[n.id] = pos
+            elif isinstance(n, ast.AugAssign) and isinstance(n.target, ast.Name):
+                loads.setdefault(n.target.id, (n.lineno, n.col_offset - 1))
+        test_reads = {n.id for n in ast.walk(loop.test) if isinstance(n, ast.Name)} if isinstance(loop, ast.While) else set()
+        after = set()
+        end = getattr(loop, "end_lineno", loop.lineno)
+        for n in ast.walk(fdef):
+            if isinstance(n, ast.Name) and isinstance(n.ctx, ast.Load) and n.lineno > end:
+                after.add(n.id)
+        carried = set()
+        for name, spos in stores.items():
+            if name in test_reads or name in after or (name in loads and loads[name] < spos):
+                carried.add(name)
+        return carried
+
+    def annotation_gap(self, spec, view, loop):
+        """loop-carried locals the invariant never looked at (None when the annotation covers the loop)"""
+        try:
+            fdef = self._cur_fdef(self.cur[-1])
+            carried = self.loop_carried(loop, fdef)
+        except Exception:
+            return None
+        if isinstance(loop, ast.For):
+            carried -= {n.id for n in ast.walk(loop.target) if isinstance(n, ast.Name)}
+        covered = set(view.read) | set(getattr(spec, "covers", ()))
+        if view.pre is not None:
+            covered |= set(view.pre.read)
+        # names reached through state.env directly in contract code cannot be tracked: treat `env[...]` users as covering everything
+        if getattr(spec, "reads_env", False):
+            return None
+        gap = sorted(carried - covered)
+        return gap or None
+
     def inv_check(self, spec, view, label, node):
         if spec.hints is not None and label.endswith("inv-preserved"):
             for (hl, prem, concl) in spec.hints(view):
@@ -698,6 +746,10 @@ class Interp:
         invs = spec.inv(view)
         if not isinstance(invs, (list, tuple)):
             invs = [invs]
+        if isinstance(node, (ast.While, ast.For)):
+            gap = self.annotation_gap(spec, view, node)
+            if gap:
+                self.annotation_gaps[(self.cur[-1], node.lineno)] = gap
         for j, g in enumerate(invs):
             self.oblige(f"{label}#{j}" if len(invs) > 1 else label, view.state, g, node)
 
@@ -1256,6 +1308,9 @@ class Interp:
             return self.call_named(fn[1], fn[2], None, args, kwargs, st, node)
         if isinstance(fn, tuple) and fn and isinstance(fn[0], str) and fn[0] == "class":
             h = self.reg.get((fn[1], fn[2] + ".__new__"))
+            if h is None and fn[1] in self.mods and len(self.cur) < 7:
+                # a class of the package without a registered constructor contract: a new object whose real __init__ runs inline
+                h = self.ext["__instantiate__"](fn[1], fn[2])
             if h is None:
                 raise Unsupported(f"constructor {fn[1]}.{fn[2]} has no contract")
             return h(self, st, args, kwargs, node)
@@ -1349,6 +1404,11 @@ class Interp:
                             return h(self, st, [recv] + list(args), kwargs, node)
                     if len(self.cur) < 7:
                         self.inlined.add((modname, f"{dcls}.{name}"))
+                        decos = {ast.unparse(d) for d in fdef.decorator_list}
+                        if "staticmethod" in decos:        # obj.static(...): no receiver is passed
+                            return _Outcomes(self.call_function(modname, f"{dcls}.{name}", st, list(args), kwargs, fdef=fdef))
+                        if "classmethod" in decos:
+                            return _Outcomes(self.call_function(modname, f"{dcls}.{name}", st, [("class", modname, cls)] + list(args), kwargs, fdef=fdef))
                         return _Outcomes(self.call_function(modname, f"{dcls}.{name}", st, args, kwargs, self_val=recv, fdef=fdef))
                     raise Unsupported(f"method {modname}.{cls}.{name} has neither contract nor inline mark "
                                       f"(line {getattr(node, 'lineno', '?')})")
